@@ -1,7 +1,9 @@
 """C15 — VMSA translation.  (1) decision level: translate_address() over generated short-descriptor page tables
 written into RAM (sections, supersections, large and small pages, invalid entries, TTBR0/TTBR1 split by
-TTBCR.N, PD0/PD1, DACR, AP/APX with and without AFE, TEX remap, descriptor endianness, FCSE) against an
-independently written walker (vf/ref/mem.py); (2) instruction level: loads/stores in lock-step with the MMU on."""
+TTBCR.N, PD0/PD1, DACR, AP/APX with and without AFE, TEX remap, descriptor endianness, FCSE) and over generated
+long-descriptor stage-1 tables (PL1&0 regime: T0SZ/T1SZ split, EPD0/EPD1, 1-3 levels, blocks, pages, hierarchical
+APTable/XNTable/PXNTable/NSTable, access flag, MAIR; Hyp regime: HTCR/HTTBR/HMAIR) against an independently written
+walker (vf/ref/mem.py); (2) instruction level: loads/stores in lock-step with the MMU on."""
 import random
 from vf.props import _lock as L
 from vf.common import rng_for
@@ -16,10 +18,13 @@ RULE = ('decision level: case = (page-table set: TTBCR.N 0..7, PD0/PD1, TTBR0/TT
         'FCSE PID) x (address inside / at both edges of the mapped block, on both sides of the TTBR split, random) x '
         'read/write x privileged/unprivileged, plus MMU off; outcome (physical address + memory type, or fault kind) and '
         'DFSR/DFAR compared with the reference walker. instruction level: load/store rows in lock-step under the fixed '
-        'page tables of the harness. non-trivial = a walk reached a valid descriptor or faulted; distinct = (descriptor '
+        'page tables of the harness. long-descriptor sets (configuration with LPAE): T0SZ/T1SZ 0..7, EPD0/1, table chains of '
+        '1-3 levels with block / page / table / invalid / reserved descriptors, hierarchical attribute bits, AF, AP[2:1], '
+        'MAIR attribute bytes, Secure / Non-secure PL1&0 and Hyp-mode regimes. non-trivial = a walk reached a valid descriptor or faulted; distinct = (descriptor '
         'type, level, outcome, domain setting, privilege, direction)')
-ASSUMPTIONS = ['vf/ref/mem.py walk_sd / translate_v transcribe B3.19 (short-descriptor format); long-descriptor (LPAE) and '
-               'stage-2 translations are not judged (RefNotModelled)',
+ASSUMPTIONS = ['vf/ref/mem.py walk_sd / walk_ld_s1 / translate_v transcribe B3.19 (short- and long-descriptor stage 1); stage-2 '
+               'translation (HCR.VM = 1) is not judged (RefNotModelled)',
+               'MAIR encodings that are IMPLEMENTATION DEFINED or need the transient hint are not judged',
                'TEX/C/B encodings the manual leaves IMPLEMENTATION DEFINED are not judged']
 MEM = [(0x0, 0x20000)]
 T0, T1, L2BASE = 0x8000, 0xC000, 0x10000
@@ -57,6 +62,15 @@ def run_shard(spec):
         if ctx.cfg['arch_version'] >= 7:
             r.sctlr.u = 1
         r.dacr.value = rng.choice([0b001101, 0b001101, 0b111111, 0b000001])
+        if ctx.prot == 'mmu-ld':
+            # windows of the long-descriptor layout (vf/scen.py _program_mmu_ld)
+            for n in range(13):
+                if rng.random() < 0.7:
+                    r.set(n, rng.choice([0x100, 0x1000, 0x2000, 0x3000, 0x8000, 0x9000, 0x12000, 0x12FFC, 0x13000, 0x100100, 0x101000,
+                                         0x102000, 0x200100, 0x201000, 0x3FFFFC, 0x400100, 0x600100, 0x800100, 0xA00000, 0xFFFFF100,
+                                         0x40000000, 0xFFDFF000, 0x1FFC, 0xFFC]) + rng.choice([0, 0, 4, -4, 2, 1]))
+            desc['ld'] = True
+            return
         # addresses inside the virtual windows the harness maps (vf/scen.py _program_mmu)
         for n in range(13):
             if rng.random() < 0.7:
@@ -66,7 +80,7 @@ def run_shard(spec):
 
     def keyfn(key, info, diffs):
         return key + ('|abort-' + info['abort'] if info.get('abort') else '')
-    return L.run_rows(ID, spec, FAMILY, ctxs=[('v7-vmsa-sec', 'mmu'), ('v6-vmsa', 'mmu')], after=after, keyfn=keyfn)
+    return L.run_rows(ID, spec, FAMILY, ctxs=[('v7-vmsa-sec', 'mmu'), ('v6-vmsa', 'mmu'), ('v7-vmsa-virt', 'mmu-ld')], after=after, keyfn=keyfn)
 
 
 MAIR_BYTES = [0x00, 0x04, 0x44, 0xFF, 0xBB, 0x4F, 0xAA, 0xF4, 0x88, 0xCC]
@@ -174,9 +188,10 @@ def build_ld(cpu, r, rng, regime, ee):
             tbl = sum((1 if rng.random() < 0.12 else 0) << b for b in (59, 60, 61, 62, 63))
             if regime == 'hyp' and rng.random() < 0.85:
                 tbl &= ~((1 << 59) | (1 << 61))
-            w64(da, tbl | nt | (rng.getrandbits(10) << 2 if rng.random() < 0.3 else 0) | 0b11)
-            chain.append('L%d table%s' % (level, ' hier%#x' % (tbl >> 59) if tbl else ''))
-            base = nt
+            hi_pa = (rng.getrandbits(8) << 32) if rng.random() < 0.06 else 0     # next table beyond the RAM: reads as zeros
+            w64(da, tbl | hi_pa | nt | (rng.getrandbits(10) << 2 if rng.random() < 0.3 else 0) | 0b11)
+            chain.append('L%d table%s%s' % (level, ' hier%#x' % (tbl >> 59) if tbl else '', ' (unmapped %#x)' % (hi_pa | nt) if hi_pa else ''))
+            base = nt            # (the chain below is written even when the walk cannot reach it)
             level += 1
         tested.append(ia)
         descs.append((hex(ia), ' -> '.join(chain)))
@@ -363,6 +378,8 @@ def finish(agg, tier, seed):
     inc = L.finish_rows(agg, 500)
     if c.get('decisions_ok', 0) < 1500 or c.get('decisions_abort', 0) < 1500:
         inc.append('too few decisions (%d ok, %d abort)' % (c.get('decisions_ok', 0), c.get('decisions_abort', 0)))
+    if c.get('decisions_ld_ok', 0) < 300 or c.get('decisions_ld_abort', 0) < 500:
+        inc.append('too few long-descriptor decisions (%d ok, %d abort)' % (c.get('decisions_ld_ok', 0), c.get('decisions_ld_abort', 0)))
     return dict(inconclusive=inc, coverage=dict(
         outcomes_observed=sorted(agg['sets'].get('outcomes', ()))[:80],
         rows_exercised=len(agg['sets'].get('rows', ())),
